@@ -269,11 +269,29 @@ class CallMixin:
                 res.extend(self.opaque_call(e, s1, exc, expect))
                 continue
             lv = self.lvalue(f.value, s1, exc)
-            for s2, (args, kw) in self.ev_args(e, s1, exc):
+            expects = None
+            if isinstance(recv.s, Seq):
+                expects = {"append": [recv.s.elem], "extend": [recv.s], "insert": [INT, recv.s.elem],
+                           "remove": [recv.s.elem], "index": [recv.s.elem], "count": [recv.s.elem]}.get(attr)
+            elif isinstance(recv.s, SetS):
+                expects = {"add": [recv.s.elem], "discard": [recv.s.elem], "remove": [recv.s.elem]}.get(attr)
+            elif isinstance(recv.s, MapS):
+                expects = {"get": [recv.s.key, None], "pop": [recv.s.key, None], "setdefault": [recv.s.key, recv.s.val]}.get(attr)
+            if expects is not None:
+                n_exprs = len(e.args) + len(e.keywords)
+                expects = (expects + [None] * n_exprs)[:n_exprs]
+            for s2, (args, kw) in self.ev_args(e, s1, exc, expects):
                 if lv is not None and s2 is not s1:
                     lv = self.lvalue(f.value, s2, exc)
                 res.extend(m(recv if lv is None else lv.get(), lv, args, kw, s2, e, exc))
         return res
+
+    def setrecv(self, node, st, exc, value):
+        """Write `value` back to the receiver of the method call `node`, resolved in the *current* state."""
+        lv = self.lvalue(node.func.value, st, exc)
+        if lv is None:
+            raise EngineError("mutation of a temporary container (L%d): %s" % (node.lineno, ast.unparse(node)))
+        lv.set(value)
 
     def _mut(self, lv, node):
         if lv is None:
@@ -294,7 +312,7 @@ class CallMixin:
             raise EngineError("append of %s to %s (L%d)" % (x.s, recv.s, node.lineno))
         nv = self.fresh(recv.s, "app", None)
         self.note_concat(st, nv, [("seq", recv), ("unit", xx)])
-        lv.set(nv)
+        self.setrecv(node, st, exc, nv)
         return [(st, S.NONEV())]
 
     def seq_extend(self, recv, lv, args, kw, st, node, exc):
@@ -309,7 +327,7 @@ class CallMixin:
             raise EngineError("extend of %s with %s (L%d)" % (recv.s, x.s, node.lineno))
         nv = self.fresh(recv.s, "ext", None)
         self.note_concat(st, nv, [("seq", recv), ("seq", xx)])
-        lv.set(nv)
+        self.setrecv(node, st, exc, nv)
         return [(st, S.NONEV())]
 
     def seq_insert(self, recv, lv, args, kw, st, node, exc):
@@ -322,7 +340,7 @@ class CallMixin:
         xx = self.coerce(x, recv.s.elem)
         nv = self.fresh(recv.s, "ins", None)
         self.note_concat(st, nv, [("unit", xx), ("seq", recv)])
-        lv.set(nv)
+        self.setrecv(node, st, exc, nv)
         return [(st, S.NONEV())]
 
     def seq_pop(self, recv, lv, args, kw, st, node, exc):
@@ -344,7 +362,7 @@ class CallMixin:
             self.note_concat(st, recv, [("seq", nv), ("unit", x)])
         else:
             raise EngineError("pop at a general index (L%d)" % node.lineno)
-        lv.set(nv)
+        self.setrecv(node, st, exc, nv)
         return [(st, x)]
 
     def seq_sort(self, recv, lv, args, kw, st, node, exc):
@@ -353,7 +371,7 @@ class CallMixin:
             return [(st, S.NONEV())]
         nv = self.fresh(recv.s, "sorted", st)
         self.assume_perm(st, recv, nv)
-        lv.set(nv)
+        self.setrecv(node, st, exc, nv)
         return [(st, S.NONEV())]
 
     seq_reverse = seq_sort
@@ -401,7 +419,7 @@ class CallMixin:
         st.assume(z3.Not(z3.Contains(pre.t, z3.Unit(x.t))))
         self.note_concat(st, recv, [("seq", pre), ("unit", x), ("seq", post)])
         self.note_concat(st, nv, [("seq", pre), ("seq", post)])
-        lv.set(nv)
+        self.setrecv(node, st, exc, nv)
         return [(st, S.NONEV())]
 
     # --- str / bytes methods
@@ -513,7 +531,7 @@ class CallMixin:
         x = self.coerce(args[0], recv.s.elem)
         if x is None:
             raise EngineError("set.add of %s to %s (L%d)" % (args[0].s, recv.s, node.lineno))
-        lv.set(V(recv.s, z3.Store(recv.t, x.t, True)))
+        self.setrecv(node, st, exc, V(recv.s, z3.Store(recv.t, x.t, True)))
         return [(st, S.NONEV())]
 
     def set_discard(self, recv, lv, args, kw, st, node, exc):
@@ -522,7 +540,7 @@ class CallMixin:
             return [(st, S.NONEV())]
         x = self.coerce(args[0], recv.s.elem)
         if x is not None:
-            lv.set(V(recv.s, z3.Store(recv.t, x.t, False)))
+            self.setrecv(node, st, exc, V(recv.s, z3.Store(recv.t, x.t, False)))
         return [(st, S.NONEV())]
 
     def set_remove(self, recv, lv, args, kw, st, node, exc):
@@ -534,8 +552,7 @@ class CallMixin:
         st = self.raise_if(st, S.Not(S.In(x, recv)), "KeyError", node, exc)
         if st is None:
             return []
-        lv2 = self.lvalue(node.func.value, st, exc)
-        lv2.set(V(recv.s, z3.Store(recv.t, x.t, False)))
+        self.setrecv(node, st, exc, V(recv.s, z3.Store(recv.t, x.t, False)))
         return [(st, S.NONEV())]
 
     def _as_set(self, v, so, st):
@@ -578,7 +595,7 @@ class CallMixin:
                 elif opname == "symmetric_difference":
                     cur = (cur - b) | (b - cur)
             if opname.endswith("update"):
-                self._mut(lv, node).set(cur)
+                self.setrecv(node, st, exc, cur)
                 return [(st, S.NONEV())]
             return [(st, cur)]
         return m
@@ -608,8 +625,7 @@ class CallMixin:
             return []
         x = recv.s.elem.fresh("popped")
         st.assume(z3.Select(recv.t, x.t))
-        lv2 = self.lvalue(node.func.value, st, exc)
-        lv2.set(V(recv.s, z3.Store(recv.t, x.t, False)))
+        self.setrecv(node, st, exc, V(recv.s, z3.Store(recv.t, x.t, False)))
         return [(st, x)]
 
     # --- dict methods
@@ -639,8 +655,7 @@ class CallMixin:
         res = []
         has, hasnt = self.branch(st, S.In(k, recv))
         if has is not None:
-            lv2 = self.lvalue(node.func.value, has, exc)
-            lv2.set(recv.s.mk(z3.Store(recv.s.dom(recv), k.t, False), recv.s.vals(recv)))
+            self.setrecv(node, has, exc, recv.s.mk(z3.Store(recv.s.dom(recv), k.t, False), recv.s.vals(recv)))
             res.append((has, recv[k]))
         if hasnt is not None:
             if len(args) > 1:
@@ -660,7 +675,7 @@ class CallMixin:
         has = S.In(k, recv)
         newvals = z3.If(has.t, recv.s.vals(recv), z3.Store(recv.s.vals(recv), k.t, d.t))
         nm = recv.s.mk(z3.Store(recv.s.dom(recv), k.t, True), newvals)
-        lv.set(nm)
+        self.setrecv(node, st, exc, nm)
         return [(st, nm[k])]
 
     def map_keys(self, recv, lv, args, kw, st, node, exc):
@@ -683,7 +698,7 @@ class CallMixin:
         if o.s == POLY_DICT:
             return [(st, S.NONEV())]
         if recv.s == POLY_DICT:
-            lv.set(o)
+            self.setrecv(node, st, exc, o)
             return [(st, S.NONEV())]
         if o.s != recv.s:
             raise EngineError("dict.update with %s (L%d)" % (o.s, node.lineno))
@@ -692,7 +707,7 @@ class CallMixin:
         st.assume(z3.ForAll([k.t], z3.And(
             z3.Select(nm.s.dom(nm), k.t) == z3.Or(z3.Select(recv.s.dom(recv), k.t), z3.Select(o.s.dom(o), k.t)),
             z3.Select(nm.s.vals(nm), k.t) == z3.If(z3.Select(o.s.dom(o), k.t), z3.Select(o.s.vals(o), k.t), z3.Select(recv.s.vals(recv), k.t)))))
-        lv.set(nm)
+        self.setrecv(node, st, exc, nm)
         return [(st, S.NONEV())]
 
     # ---------------------------------------------------------------- builtin functions
